@@ -100,8 +100,36 @@ func runC08(w *World, r *Report) {
 	checkFlagBinding(w, r, "C08/WIRING", map[string]bool{"HideSecret": true, "SubNotes": true, "IncludeCRDs": true, "SkipCRDs": true})
 }
 
+// c08Classifier: the function that sorts the documents of one file into hooks and generic manifests
+// (manifestFile.sort on the reference tree; found by role if it was turned into a plain function).
+func c08Classifier(w *World) *ssa.Function {
+	if fn := w.Fn("pkg/release/util", "manifestFile.sort"); fn != nil {
+		return fn
+	}
+	for _, f := range w.FuncsIn("pkg/release/util") {
+		if f.Parent() != nil || strings.HasSuffix(w.FileOf(f), "_test.go") {
+			continue
+		}
+		gen, hooks := false, false
+		for _, b := range f.Blocks {
+			for _, in := range b.Instrs {
+				if st, ok := in.(*ssa.Store); ok {
+					if _, t, fl := fieldNameOf(st.Addr); t == "result" {
+						gen = gen || fl == "generic"
+						hooks = hooks || fl == "hooks"
+					}
+				}
+			}
+		}
+		if gen && hooks {
+			return f
+		}
+	}
+	return nil
+}
+
 func c08Partition(w *World, r *Report) {
-	fn := w.Fn("pkg/release/util", "manifestFile.sort")
+	fn := c08Classifier(w)
 	if fn == nil {
 		r.Unk("C08/PARTITION", "anchor", "-", "manifestFile.sort not found")
 		return
@@ -299,9 +327,18 @@ func c08Split(w *World, r *Report) {
 	g := FullGraph(sm)
 	// the call to manifestFile.sort per file; skips allowed only: HasPrefix(path.Base(p), "_") true, TrimSpace(content) == "" true
 	var sortCall ssa.CallInstruction
+	cls := c08Classifier(w)
 	for _, c := range callInstrs(sm) {
-		if f, _ := calleeOf(c.Common()); f != nil && strings.HasSuffix(FuncName(f), "manifestFile).sort") {
+		if f, _ := calleeOf(c.Common()); f != nil && (strings.HasSuffix(FuncName(f), "manifestFile).sort") || (cls != nil && origin(f) == cls)) {
 			sortCall = c
+		}
+	}
+	if sortCall == nil && cls == sm {
+		// the classification was folded into SortManifests itself: the per-file step starts with the split
+		for _, c := range callInstrs(sm) {
+			if f, _ := calleeOf(c.Common()); f != nil && FuncName(f) == "pkg/release/util.SplitManifests" {
+				sortCall = c
+			}
 		}
 	}
 	if sortCall == nil {
@@ -609,47 +646,55 @@ func c08KindSort(w *World, r *Report) {
 		stable := sortName == "sort.SliceStable" || sortName == "sort.Stable" || sortName == "slices.SortStableFunc"
 		r.Check(stable, "C08/KIND-SORT", name, w.Pos(fn.Pos()), "uses "+sortName+" (original order kept within a kind)", "uses "+sortName+": documents of one kind may be reordered")
 	}
-	lk := w.Fn("pkg/release/util", "lessByKind")
-	if lk == nil {
-		r.Unk("C08/KIND-SORT", "lessByKind", "-", "function not found")
-		return
+	// the comparator, by role: a function (or closure) of the package that looks two kind names up
+	// (comma-ok) in one rank table and returns a bool
+	type cand struct {
+		fn                       *ssa.Function
+		aok, bok, first, second ssa.Value
 	}
-	r.Fn(FuncName(lk))
-	g := FullGraph(lk)
-	// the two lookups ordering[kindA], ordering[kindB]; returns: on !aok && bok false; on aok && !bok true; both known: first < second (or ==)
-	var aok, bok, first, second ssa.Value
-	var params []ssa.Value
-	for _, p := range lk.Params {
-		if isStringType(p.Type()) {
-			params = append(params, p)
+	var cands []cand
+	for _, f := range w.FuncsIn("pkg/release/util") {
+		if strings.HasSuffix(w.FileOf(f), "_test.go") || f.Signature.Results().Len() != 1 || !isBoolType(f.Signature.Results().At(0).Type()) {
+			continue
 		}
-	}
-	for _, b := range lk.Blocks {
-		for _, in := range b.Instrs {
-			if l, ok := in.(*ssa.Lookup); ok && l.CommaOk && len(params) == 2 {
-				for _, rf := range *l.Referrers() {
-					if ex, ok := rf.(*ssa.Extract); ok {
-						if l.Index == params[0] {
-							if ex.Index == 0 {
-								first = ex
-							} else {
-								aok = ex
-							}
-						}
-						if l.Index == params[1] {
-							if ex.Index == 0 {
-								second = ex
-							} else {
-								bok = ex
-							}
+		var lks []*ssa.Lookup
+		for _, b := range f.Blocks {
+			for _, in := range b.Instrs {
+				if l, ok := in.(*ssa.Lookup); ok && l.CommaOk {
+					if mp, ok := l.X.Type().Underlying().(*types.Map); ok && isStringType(mp.Key()) {
+						if bt, ok := mp.Elem().Underlying().(*types.Basic); ok && bt.Info()&types.IsInteger != 0 {
+							lks = append(lks, l)
 						}
 					}
 				}
 			}
 		}
+		if len(lks) != 2 || lks[0].X != lks[1].X || lks[0].Index == lks[1].Index || lks[0].Referrers() == nil || lks[1].Referrers() == nil {
+			continue
+		}
+		c := cand{fn: f}
+		for i, l := range lks {
+			for _, rf := range *l.Referrers() {
+				if ex, ok := rf.(*ssa.Extract); ok {
+					switch {
+					case i == 0 && ex.Index == 0:
+						c.first = ex
+					case i == 0:
+						c.aok = ex
+					case ex.Index == 0:
+						c.second = ex
+					default:
+						c.bok = ex
+					}
+				}
+			}
+		}
+		if c.aok != nil && c.bok != nil && c.first != nil && c.second != nil {
+			cands = append(cands, c)
+		}
 	}
-	if aok == nil || bok == nil || first == nil || second == nil {
-		r.Unk("C08/KIND-SORT", "lessByKind/shape", w.Pos(lk.Pos()), "the comparator no longer looks both kinds up in the order table")
+	if len(cands) == 0 {
+		r.Unk("C08/KIND-SORT", "lessByKind/shape", "-", "no comparator that looks both kinds up in the order table was found")
 		return
 	}
 	edges := func(v ssa.Value, truth bool) []Edge {
@@ -661,36 +706,60 @@ func c08KindSort(w *World, r *Report) {
 		}
 		return out
 	}
-	okIdx, okUnknownLast := false, true
-	for _, b := range lk.Blocks {
-		if len(b.Instrs) == 0 {
-			continue
+	for ci, c := range cands {
+		lk := c.fn
+		r.Fn(FuncName(lk))
+		g := FullGraph(lk)
+		okIdx, okUnknownLast := false, true
+		// the answers: returned values, or — where the answer is collected in one variable — the values flowing into it
+		type answer struct {
+			v  ssa.Value
+			at IPos
 		}
-		ret, isRet := b.Instrs[len(b.Instrs)-1].(*ssa.Return)
-		if !isRet {
-			continue
-		}
-		v := ret.Results[0]
-		if bo, isBo := v.(*ssa.BinOp); isBo && bo.Op == token.LSS && bo.X == first && bo.Y == second {
-			// reached with both known (or both unknown and equal kinds)
-			okIdx = true
-		}
-		if c, isC := constBool(v); isC {
-			// return false must be where A is unknown and B known; return true where A known and B unknown
-			if c {
-				// must require bok false
-				if ex, _ := g.PathExists(entryPos(lk), posOf(ret), Avoid{}.withEdges(edges(bok, false)...)); ex {
-					okUnknownLast = false
+		var answers []answer
+		var expand func(v ssa.Value, at IPos, d int)
+		expand = func(v ssa.Value, at IPos, d int) {
+			if phi, ok := v.(*ssa.Phi); ok && d < 4 {
+				for i, e := range phi.Edges {
+					pb := phi.Block().Preds[i]
+					expand(e, IPos{pb, len(pb.Instrs) - 1}, d+1)
 				}
-			} else {
-				if ex, _ := g.PathExists(entryPos(lk), posOf(ret), Avoid{}.withEdges(edges(aok, false)...)); ex {
-					okUnknownLast = false
+				return
+			}
+			answers = append(answers, answer{v, at})
+		}
+		for _, b := range lk.Blocks {
+			if len(b.Instrs) == 0 {
+				continue
+			}
+			if ret, isRet := b.Instrs[len(b.Instrs)-1].(*ssa.Return); isRet {
+				expand(ret.Results[0], posOf(ret), 0)
+			}
+		}
+		for _, a := range answers {
+			if bo, isBo := a.v.(*ssa.BinOp); isBo && bo.Op == token.LSS && bo.X == c.first && bo.Y == c.second {
+				okIdx = true
+			}
+			if cb, isC := constBool(a.v); isC {
+				// false only where A is unknown; true only where B is unknown
+				if cb {
+					if ex, _ := g.PathExists(entryPos(lk), a.at, Avoid{}.withEdges(edges(c.bok, false)...)); ex {
+						okUnknownLast = false
+					}
+				} else {
+					if ex, _ := g.PathExists(entryPos(lk), a.at, Avoid{}.withEdges(edges(c.aok, false)...)); ex {
+						okUnknownLast = false
+					}
 				}
 			}
 		}
+		suffix := ""
+		if ci > 0 {
+			suffix = fmt.Sprintf("#%d", ci+1)
+		}
+		r.Check(okIdx, "C08/KIND-SORT", "lessByKind/by-index"+suffix, w.Pos(lk.Pos()), "known kinds are ordered by their table index", "known kinds are not ordered by their index in the table")
+		r.Check(okUnknownLast, "C08/KIND-SORT", "lessByKind/unknown-last"+suffix, w.Pos(lk.Pos()), "a kind missing from the table sorts after every known kind", "unknown kinds are not kept after the known ones")
 	}
-	r.Check(okIdx, "C08/KIND-SORT", "lessByKind/by-index", w.Pos(lk.Pos()), "known kinds are ordered by their table index", "known kinds are not ordered by their index in the table")
-	r.Check(okUnknownLast, "C08/KIND-SORT", "lessByKind/unknown-last", w.Pos(lk.Pos()), "a kind missing from the table sorts after every known kind", "unknown kinds are not kept after the known ones")
 }
 
 func c08Barrier(w *World, r *Report) {
